@@ -23,7 +23,7 @@ KLS = [0, 1, 8, 63, 64]
 
 def msglens():
     # bytes: around the 512-byte PAR block and the 384-byte SEQ block, 1..4 tree levels
-    return [0, 1, 3, 383, 384, 385, 511, 512, 513, 767, 768, 769, 1024, 1025, 1536, 2047, 2048, 2049, 3 * 512 + 7, 5 * 512, 16 * 512, 16 * 512 + 1, 17 * 512]
+    return [0, 1, 3, 127, 128, 129, 383, 384, 385, 511, 512, 513, 767, 768, 769, 1024, 1025, 1536, 2047, 2048, 2049, 3 * 512 + 7, 5 * 512, 16 * 512, 16 * 512 + 1, 17 * 512]
 
 def cases(tier, rng):
     j = 0
@@ -37,7 +37,7 @@ def cases(tier, rng):
                     nblk = max(1, -(-ml // 512))
                     r = [6, 2, 8, 3][j % 4] if nblk > 4 or tier == 'quick' else [None, 5, 8, 1][j % 4]
                     bl = None if j % 3 else (8 * ml - (j % 7) - 1 if ml else None)
-                    yield {'k': 'md6', 'd': d, 'L': L, 'kl': kl, 'ml': ml, 'r': r, 'bl': bl}
+                    yield {'k': 'md6', 'd': d, 'L': L, 'kl': kl, 'ml': ml, 'r': r, 'bl': bl, 'pat': ['rand', 'rand', 'zero', 'rand', 'x7f', 'ones'][(j // 9 + j) % 6]}
     # default rounds on small messages for every d class / mode
     for d in DS:
         for L in (0, 1, 64):
@@ -94,7 +94,7 @@ def run(case, ctx, rng):
         siblings(ctx, rng, 'siblings:md6==spec', specs, late=specs.pop())
         return
     d, L, kl, ml, r, bl = (case[x] for x in ('d', 'L', 'kl', 'ml', 'r', 'bl'))
-    M = rng.randbytes(ml); key = rng.randbytes(kl)
+    M = pattern(rng, ml, case.get('pat', 'rand')); key = rng.randbytes(kl)        # also messages whose blocks are all equal
     ctx.cls((d if d in DS else 'd%%8=%d' % (d % 8), L, kl, r or 'default', nblk_class(ml), ml % 512 in (0, 1, 511), ml % 384 in (0, 1, 383), (bl or 0) % 8))
     def f():
         h = MD6(d, key, L)
@@ -105,6 +105,18 @@ def run(case, ctx, rng):
     ctx.eq('md6==spec', got, rm.md6(d, M, bl, key, L, r), **det)
     if not is_exc(got):
         ctx.eq('digest-length', len(got), (d + 7) // 8, **det)
+    if ml <= 1024 and bl is None and not is_exc(got):
+        # caller-owned buffers: a bytearray key the caller wipes after construction, a bytearray message
+        from vmon.core import mutable_arg
+        kb = bytearray(key)
+        h2 = call(MD6, d, kb, L)
+        if not is_exc(h2):
+            if r is not None: h2.rounds = r
+            ctx.eq('md6==spec', call(h2, M), got, key_as='bytearray', **det)
+            for i in range(len(kb)): kb[i] = 0
+            del kb[len(kb) // 2:]
+            ctx.eq('md6==spec', call(h2, M), got, key_as='bytearray wiped and shortened by the caller after construction', **det)
+            mutable_arg(ctx, 'md6==spec', (lambda buf: h2(buf)), M, got, **det)
 
 def classify(case, fail):
     return None
